@@ -350,6 +350,60 @@ fn table() -> Vec<Entry> {
         e!("usb::reset_usb_device", SYS_ioctl, Zero, Unit, || unit(rusl::usb::reset_usb_device(fd_a()))),
         e!("usb::release_interface", SYS_ioctl, Zero, Unit, || unit(rusl::usb::release_interface(fd_a(), 0))),
         e!("hidio::get_hid_dev_dev_info", SYS_ioctl, Zero, Unit, || unit(rusl::hidio::get_hid_dev_dev_info(fd_a())), fill fill_hid),
+        // ---- ARGUMENT SHAPES: equal arguments (same descriptor twice, same path twice, src == dst)
+        e!("unistd::dup2#eq", SYS_dup3, Id, Unit, || unit(u::dup2(fd_a(), fd_a()))),
+        e!("unistd::dup3#eq", SYS_dup3, Id, Unit, || unit(u::dup3(fd_a(), fd_a(), true))),
+        e!("unistd::dup2#eq-stdin", SYS_dup3, Id, Unit, || unit(u::dup2(STDIN, STDIN))),
+        e!("unistd::dup3#eq-nocloexec", SYS_dup3, Id, Unit, || unit(u::dup3(fd_b(), fd_b(), false))),
+        e!("unistd::copy_file_range#eq", SYS_copy_file_range, Count, U64, || cnt(u::copy_file_range(fd_a(), 0, fd_a(), 0, 16))),
+        e!("unistd::copy_file_range#eq-len0", SYS_copy_file_range, Count, U64, || cnt(u::copy_file_range(fd_a(), 0, fd_a(), 0, 0))),
+        e!("unistd::copy_file_range#len0", SYS_copy_file_range, Count, U64, || cnt(u::copy_file_range(fd_a(), 0, fd_b(), 0, 0))),
+        e!("unistd::fcntl_dupfd_cloexec#eq", SYS_fcntl, Id, I32, || fdr(u::fcntl_dupfd_cloexec(fd_a(), fd_a()))),
+        e!("unistd::rename#eq", SYS_renameat2, Zero, Unit, || unit(u::rename(p1(), p1()))),
+        e!("unistd::rename_flags#eq", SYS_renameat2, Zero, Unit, || unit(u::rename_flags(p1(), p1(), RenameFlags::empty()))),
+        e!("unistd::rename_at#eq", SYS_renameat2, Zero, Unit, || unit(u::rename_at(fd_a(), p1(), fd_a(), p1()))),
+        e!("unistd::rename_at2#eq", SYS_renameat2, Zero, Unit, || unit(u::rename_at2(fd_a(), p1(), fd_a(), p1(), RenameFlags::empty()))),
+        e!("unistd::mount#eq", SYS_mount, Zero, Unit, || unit(u::mount(p1(), p1(), FilesystemType::TMPFS, Mountflags::MS_RDONLY, None))),
+        e!("unistd::mount#eq-data", SYS_mount, Zero, Unit, || unit(u::mount(p1(), p1(), FilesystemType::TMPFS, Mountflags::MS_RDONLY, Some(p1())))),
+        e!("unistd::setpgid#eq", SYS_setpgid, Zero, Unit, || unit(u::setpgid(4321, 4321))),
+        e!("select::epoll_ctl#eq", SYS_epoll_ctl, Zero, Unit, || {
+            unit(rusl::select::epoll_ctl(fd_a(), EpollOp::Add, fd_a(), &EpollEvent::new(7, EpollEventMask::EPOLLIN)))
+        }),
+        e!("select::epoll_del#eq", SYS_epoll_ctl, Zero, Unit, || unit(rusl::select::epoll_del(fd_a(), fd_a()))),
+        e!("io_uring::io_uring_register_files#eq", SYS_io_uring_register, Zero, Unit, || unit(rusl::io_uring::io_uring_register_files(fd_a(), &[fd_a()]))),
+        e!("time::nanosleep#eq-rem", SYS_nanosleep, Zero, Unit, || {
+            let mut ts = TimeSpec::new(0, 1);
+            let p = &mut ts as *mut TimeSpec;
+            unit(rusl::time::nanosleep(unsafe { &*p }, Some(p)))
+        }),
+        // ---- ARGUMENT SHAPES: zero-length buffers / empty vectors / zero counts
+        e!("unistd::read#len0", SYS_read, Count, U64, || cnt(u::read(fd_a(), &mut []))),
+        e!("unistd::write#len0", SYS_write, Count, U64, || cnt(u::write(fd_a(), &[]))),
+        e!("unistd::readv#len0", SYS_readv, Count, U64, || cnt(u::readv(fd_a(), &mut []))),
+        e!("unistd::writev#len0", SYS_writev, Count, U64, || cnt(u::writev(fd_a(), &[]))),
+        e!("unistd::get_dents#len0", SYS_getdents64, Count, U64, || cnt(u::get_dents(fd_a(), &mut []))),
+        e!("select::epoll_wait#len0", SYS_epoll_pwait, Count, U64, || cnt(rusl::select::epoll_wait(fd_a(), &mut [], 0))),
+        e!("select::ppoll#len0", SYS_ppoll, Count, U64, || cnt(rusl::select::ppoll(&mut [], None, None))),
+        e!("network::sendmsg#len0", SYS_sendmsg, Count, U64, || {
+            let g = MsgHdrBorrow::create_send(None, &[], None);
+            cnt(rusl::network::sendmsg(fd_a(), &g, 0))
+        }),
+        e!("network::recvmsg#len0", SYS_recvmsg, Count, U64, || {
+            let mut h = MsgHdrBorrow::create_recv(&mut [], None);
+            cnt(rusl::network::recvmsg(fd_a(), &mut h, 0))
+        }),
+        e!("network::listen#len0", SYS_listen, Zero, Unit, || unit(rusl::network::listen(fd_a(), NonNegativeI32::ZERO))),
+        e!("futex::futex_wake#len0", SYS_futex, Count, U64, || {
+            let a = AtomicU32::new(0);
+            cnt(rusl::futex::futex_wake(&a, 0))
+        }),
+        e!("io_uring::io_uring_enter#len0", SYS_io_uring_enter, Count, U64, || cnt(rusl::io_uring::io_uring_enter(fd_a(), 0, 0, IoUringEnterFlags::empty()))),
+        e!("io_uring::io_uring_register_files#len0", SYS_io_uring_register, Zero, Unit, || unit(rusl::io_uring::io_uring_register_files(fd_a(), &[]))),
+        e!("io_uring::io_uring_register_io_slices#len0", SYS_io_uring_register, Zero, Unit, || unit(rusl::io_uring::io_uring_register_io_slices(fd_a(), &[]))),
+        e!("io_uring::io_uring_register_buffers#len0", SYS_io_uring_register, Zero, Unit, || {
+            unit(unsafe { rusl::io_uring::io_uring_register_buffers(fd_a(), &[]) })
+        }),
+        e!("usb::bulk_transfer#len0", SYS_ioctl, Count, U64, || cnt(rusl::usb::bulk_transfer(fd_a(), 1, &mut [], 10))),
     ]
 }
 
@@ -390,6 +444,8 @@ struct Force<'a> {
     /// effective arguments of the first two issues
     seen: Vec<Vec<u64>>,
     first_nr: i64,
+    /// the number of every issue (first 64)
+    nrs: Vec<i64>,
     /// issues from this index on get terminating answers
     horizon: usize,
     /// the wrapper went past the horizon and was given terminating answers
@@ -405,6 +461,9 @@ impl Plan for Force<'_> {
     fn decide(&mut self, idx: usize, nr: i64, args: &[u64; 6]) -> Decision {
         if idx == 0 {
             self.first_nr = nr;
+        }
+        if idx < 64 {
+            self.nrs.push(nr);
         }
         if idx < 2 {
             self.seen.push(match self.probe {
@@ -510,7 +569,7 @@ fn judge(sp: &Spec, script: &[i64], horizon: usize, call: &dyn Fn() -> (Got, Vec
         None => format!("{{\"op\":\"{}\",\"v\":\"{vs}\"}}", sp.name),
     };
     set_case(&case_s);
-    let mut plan = Force { script, fill: sp.fill, probe: sp.probe, seen: Vec::new(), first_nr: -1, horizon, over: false, case: &case_s };
+    let mut plan = Force { script, fill: sp.fill, probe: sp.probe, seen: Vec::new(), first_nr: -1, nrs: Vec::new(), horizon, over: false, case: &case_s };
     let res = catch(|| sysx::run(&mut plan, call));
     clear_case();
     let case = || serde_json::from_str::<Value>(&case_s).unwrap_or(Value::Null);
@@ -530,11 +589,24 @@ fn judge(sp: &Spec, script: &[i64], horizon: usize, call: &dyn Fn() -> (Got, Vec
     if verbose {
         println!("{at}: answers [{vs}] -> {got:?}; issued {} call(s), answers given [{}]", calls.len(), show_script(&calls));
     }
-    if plan.first_nr != sp.nr && !calls.is_empty() {
-        r.cap(format!("harness: {} issued {} but the table expects {}", sp.name, sysx::name(plan.first_nr), sysx::name(sp.nr)));
-        r.note("machinery-failure");
-        return;
+    // --- the call the wrapper is named for, and no other
+    if let Some(pos) = plan.nrs.iter().position(|&x| x != sp.nr) {
+        let names: Vec<&str> = plan.nrs.iter().map(|&x| sysx::name(x)).collect();
+        r.outcome("VIOLATION/unexpected-syscall");
+        r.violation(
+            &key("unexpected-syscall"),
+            format!(
+                "{at}: issue #{pos} was system call {} (nr {}), but this wrapper must issue exactly one {} (nr {}); issues: {names:?}, answers given [{}], result {got:?}",
+                sysx::name(plan.nrs[pos]),
+                plan.nrs[pos],
+                sysx::name(sp.nr),
+                sp.nr,
+                show_script(&calls)
+            ),
+            case(),
+        );
     }
+    let _ = plan.first_nr;
     // --- how often the call was issued
     let n = calls.len();
     let retry_ok = may_retry_ebusy(sp.name) && n >= 1 && calls[..n - 1].iter().all(|&a| a == -EBUSY);
@@ -1022,7 +1094,7 @@ fn completeness(tab: &[Entry]) -> (Vec<String>, Vec<String>, Vec<String>, Vec<St
     let mut missing = Vec::new();
     let mut ambiguous = Vec::new();
     let mut keys = std::collections::BTreeMap::<String, usize>::new();
-    for (m, f, _, _) in SCANNED {
+    for (m, f, _, _, _) in SCANNED {
         *keys.entry(scanned_key(m, f)).or_insert(0) += 1;
     }
     for (k, n) in &keys {
@@ -1044,6 +1116,7 @@ fn c09(args: &Args) -> Report {
     let tab = table();
     let (cov, exc, missing, ambiguous) = completeness(&tab);
     let n_entries = tab.len();
+    let table_names: Vec<&'static str> = tab.iter().map(|e| e.name).collect();
     let mut items = Vec::new();
     let thorough = args.thorough;
     let mut n_cases = 0usize;
@@ -1060,6 +1133,27 @@ fn c09(args: &Args) -> Report {
         .map(|s| scanned_key(s.0, s.1))
         .filter(|k| !lad_names.contains(k.as_str()) && !LADDER_EXCLUDED.iter().any(|x| x.0 == k) && !EXCLUDED.iter().any(|x| x.0 == k))
         .collect();
+    // argument shapes: a `#eq…` entry for every wrapper with two descriptor / two path parameters,
+    // a `#len0…` entry for every wrapper with a slice parameter
+    let has_variant = |k: &str, tag: &str| table_names.iter().any(|n| base_name(n) == k && n[base_name(n).len()..].starts_with(tag));
+    let shape_missing: Vec<String> = SCANNED
+        .iter()
+        .flat_map(|s| {
+            let k = scanned_key(s.0, s.1);
+            let mut m = Vec::new();
+            if EXCLUDED.iter().any(|x| x.0 == k) {
+                return m;
+            }
+            if s.4 && !has_variant(&k, "#eq") {
+                m.push(format!("{k} (#eq)"));
+            }
+            if s.3 && !has_variant(&k, "#len0") {
+                m.push(format!("{k} (#len0)"));
+            }
+            m
+        })
+        .collect();
+    let n_shape_entries = table_names.iter().filter(|n| n.contains("#eq") || n.contains("#len0")).count();
     let mut n_ladder_cases = 0usize;
     for l in lad {
         n_ladder_cases += ladder_cases(&l, thorough).len();
@@ -1081,7 +1175,10 @@ fn c09(args: &Args) -> Report {
     for m in &slice_missing {
         r.cap(format!("wrapper {m} takes a slice but has no argument-size ladder entry (and is not in LADDER_EXCLUDED)"));
     }
-    if !missing.is_empty() || !ambiguous.is_empty() || !slice_missing.is_empty() {
+    for m in &shape_missing {
+        r.cap(format!("wrapper {m}: the source scan says it takes two descriptors/paths (#eq) or a slice (#len0) but the table has no such argument-shape entry"));
+    }
+    if !missing.is_empty() || !ambiguous.is_empty() || !slice_missing.is_empty() || !shape_missing.is_empty() {
         r.note("machinery-failure");
     }
     if SCANNED.len() < 60 {
@@ -1098,6 +1195,9 @@ fn c09(args: &Args) -> Report {
          2^k-1 and 2^k for k=12..=30; and — where the result type can carry them — 2^31, 0xFFFFF000, u32::MAX (u32/64-bit results), 2^k-1, 2^k, -2^k, -2^k-1 for k=32..=62, 0x7fff_ffff_f000, isize::MAX, i64::MIN(+4095,+4096), \
          -2^31(-1), -65536, -8192, -4098 (64-bit results), page-aligned addresses k<<12 (k=1..=256) and ten high addresses up to 0xffff_ffff_ffff_f000 (mmap); execve only the errors (it does not return on success); \
          get_pid / clock_get_real_time / clock_get_monotonic_time only the non-error values (no error channel in the signature). dup2/dup3 additionally -EBUSY×k for k in {:?} followed by each of {:?} (horizon k+8 issues; the result must be the decoding of the last answer given — giving up at an EBUSY with Err(EBUSY) is accepted). \
+         ARGUMENT SHAPES: {n_shape_entries} of the entries repeat the full sweep with EQUAL arguments (#eq: old == new descriptor, same path twice, src fd == dst fd, epoll fd == watched fd, rem == req) for every scanned wrapper \
+         with two descriptor or two path parameters (+ setpgid, nanosleep), and with ZERO-LENGTH buffers / empty vectors / zero counts (#len0) for every scanned wrapper with a slice parameter (+ sendmsg, recvmsg, listen, futex_wake, io_uring_enter, copy_file_range). \
+         Every issue of every case must be the system call the entry names (else unexpected-syscall). \
          ARGUMENT-SIZE LADDER: {n_ladder} invocations of wrappers taking a slice / count / length (every scanned wrapper with a slice parameter, plus copy_file_range, mmap, munmap, listen, futex_wake, io_uring_enter, sendmsg/recvmsg iov and control sizes), \
          each with every size in {:?} x every answer in {{0, 1, size, -EINVAL, -EINTR, -EAGAIN, i32::MAX (numeric results)}}: one issue, result = decoding of that answer, pointer and count given to the kernel = the caller's. \
          Each (entry, answer script) is generated exactly once; every case is non-trivial (one real wrapper execution through the seam). Oracle: Err ⇔ v∈[-4095,-1] with errno −v; else Ok with v unchanged \
@@ -1110,6 +1210,7 @@ fn c09(args: &Args) -> Report {
         EBUSY_FINALS,
         if thorough { "0..=2100, 4095..=4097, 5000, 65535..=65537, 2^20-1..=2^20+1".to_string() } else { format!("{:?}", ladder_sizes(false)) }
     );
+    r.bound("argument_shape_entries", n_shape_entries);
     r.bound("ladder_entries", n_ladder);
     r.bound("ladder_cases", n_ladder_cases);
     r.bound("ebusy_run_lengths", json!(EBUSY_KS));
@@ -1132,6 +1233,7 @@ fn c09(args: &Args) -> Report {
     r.sample(json!({"op":"process::execve","v":"-2","expect":"Err(errno 2), one issue"}));
     r.sample(json!({"op":"unistd::open","v":"2147483647","expect":"Ok(fd 2147483647)"}));
     r.sample(json!({"op":"unistd::dup3","v":"-16x128,0","expect":"Err(EBUSY) after giving up at some EBUSY, or 129 issues and Ok; never Ok after only EBUSY answers"}));
+    r.sample(json!({"op":"unistd::dup2#eq","v":"1","expect":"one DUP3 (no other system call), Ok(())"}));
     r.sample(json!({"op":"unistd::writev","n":1025,"v":"1","expect":"one WRITEV with the caller's pointer and count 1025, Ok(1)"}));
     r.sample(json!({"op":"unistd::lseek","v":"9223372036854775807","expect":"Ok(i64::MAX)"}));
     r
@@ -1189,8 +1291,8 @@ fn main() {
         let tab = table();
         let (cov, exc, missing, amb) = completeness(&tab);
         println!("scanned {} ({} direct), covered {}, excluded {}, missing {:?}, ambiguous {:?}", SCANNED.len(), SCANNED.iter().filter(|s| s.2).count(), cov.len(), exc.len(), missing, amb);
-        for (m, f, d, sl) in SCANNED {
-            println!("  {m} :: {f} {}{}", if *d { "" } else { "(indirect)" }, if *sl { " [slice parameter]" } else { "" });
+        for (m, f, d, sl, pr) in SCANNED {
+            println!("  {m} :: {f} {}{}{}", if *d { "" } else { "(indirect)" }, if *sl { " [slice parameter]" } else { "" }, if *pr { " [two descriptors / two paths]" } else { "" });
         }
         return;
     }
